@@ -122,13 +122,12 @@ impl State {
         let sched = self.current_schedule();
         let viol = VIOLATIONS.with(|v| std::mem::take(&mut *v.borrow_mut()));
         for msg in viol {
-            if self.failures.len() < self.max_failures {
-                self.failures.push(Failure {
-                    kind: FailKind::Oracle,
-                    msg,
-                    schedule: sched.clone(),
-                });
-            }
+            let max = self.max_failures;
+            push_failure(
+                &mut self.failures,
+                Failure { kind: FailKind::Oracle, msg, schedule: sched.clone() },
+                max,
+            );
         }
         if let Some(o) = OUTCOME.with(|o| o.borrow_mut().take()) {
             self.stats.outcomes.insert(fxhash::hash64(&o));
@@ -423,6 +422,20 @@ impl Cfg {
     }
 }
 
+/// Keeps at most `PER_MESSAGE` failures per distinct (kind, message): a
+/// frequent (e.g. known) failure must not crowd a rare one out of the list.
+pub const PER_MESSAGE: usize = 3;
+
+pub fn push_failure(v: &mut Vec<Failure>, f: Failure, max: usize) {
+    if v.len() >= max {
+        return;
+    }
+    let same = v.iter().filter(|g| g.kind == f.kind && g.msg == f.msg).count();
+    if same < PER_MESSAGE {
+        v.push(f);
+    }
+}
+
 #[derive(Debug, Clone)]
 pub struct Outcome {
     pub stats: Stats,
@@ -510,9 +523,8 @@ pub fn explore(
                         schedule: schedule.clone(),
                     });
                 }
-                if s.failures.len() < s.max_failures {
-                    s.failures.push(Failure { kind, msg, schedule });
-                }
+                let max = s.max_failures;
+                push_failure(&mut s.failures, Failure { kind, msg, schedule }, max);
                 // the failed execution is accounted for by the next
                 // `new_execution` (finish_execution + backtrack)
             }
@@ -621,9 +633,7 @@ pub fn merge_into(m: &mut Outcome, o: Outcome) {
         m.stats.cap_hit = o.stats.cap_hit;
     }
     for f in o.failures {
-        if m.failures.len() < 1000 {
-            m.failures.push(f);
-        }
+        push_failure(&mut m.failures, f, 2000);
     }
     if m.machinery_error.is_none() {
         m.machinery_error = o.machinery_error;
@@ -703,7 +713,7 @@ impl Outcome {
             "sigs": self.stats.sigs.len(),
             "cap_hit": self.stats.cap_hit,
             "machinery_error": self.machinery_error,
-            "failures": self.failures.iter().take(300).map(|f| serde_json::json!({
+            "failures": self.failures.iter().take(2000).map(|f| serde_json::json!({
                 "kind": format!("{:?}", f.kind),
                 "msg": f.msg,
                 "schedule": f.schedule.iter().map(|(a, b)| serde_json::json!([a, b])).collect::<Vec<_>>(),
